@@ -109,8 +109,12 @@ def execute(R, op, tmp, opened=None):
             declared.add(path)
             s = io.StringIO()
             with _captured():
-                bank = list(getattr(R.treeinput, op['a']['fmt'])(
-                    path, 'utf-8', **op['a']['opts']))
+                bank = getattr(R.treeinput, op['a']['fmt'])(
+                    path, 'utf-8', **op['a']['opts'])
+                if not op.get('stream'):
+                    # the whole treebank in memory before anything is done
+                    # to it; otherwise tree by tree as the reader yields
+                    bank = list(bank)
                 other = []
                 if op.get('b'):
                     pb = _input(tmp, op['b'])
